@@ -114,6 +114,45 @@ impl Spec {
         }
     }
     /// The top-level view this stack presents initially (union semantics for overlays).
+    /// initial contents of every leaf are a tree: no entry below a file, no path with two types
+    pub fn self_consistent(&self) -> bool {
+        match self {
+            Spec::Emb => true,
+            Spec::Mem { pre } | Spec::Phys { pre } => {
+                let mut m: std::collections::BTreeMap<&str, bool> = Default::default();
+                for e in pre {
+                    let is_file = e.file.is_some();
+                    if let Some(prev) = m.get(e.path.as_str()) {
+                        if *prev != is_file {
+                            return false;
+                        }
+                    }
+                    m.insert(e.path.as_str(), is_file);
+                }
+                for (p, _) in m.iter() {
+                    for a in crate::model::ancestors(p) {
+                        if m.get(a.as_str()) == Some(&true) {
+                            return false;
+                        }
+                    }
+                }
+                true
+            }
+            Spec::Alt { inner, p } => {
+                if !inner.self_consistent() {
+                    return false;
+                }
+                // the altroot directory itself (and its ancestors) must not be files
+                let iv = inner.view();
+                let mut chain = crate::model::ancestors(p);
+                chain.push(p.clone());
+                !chain.iter().any(|a| iv.is_file(a))
+            }
+            Spec::Ovl { layers } => layers.iter().all(|l| l.self_consistent()),
+            Spec::OvlSub { base, dirs } => base.self_consistent() && !dirs.iter().any(|d| base.view().is_file(d)),
+        }
+    }
+
     /// some overlay of the stack holds a directory in one layer and a same-named file in a deeper one
     pub fn has_dir_over_file(&self) -> bool {
         match self {
@@ -354,10 +393,10 @@ fn apply_pre(root: &VfsPath, pre: &[Pre]) -> Result<(), String> {
     for e in pre {
         let p = root.join(&e.path[1..]).map_err(|x| x.to_string())?;
         match &e.file {
-            None => p.create_dir_all().map_err(|x| format!("pre {}: {}", e.path, x))?,
+            None => p.create_dir_all().map_err(|x| format!("LIBRARY-BUILD-ERROR pre {}: {}", e.path, x))?,
             Some(pl) => {
-                p.parent().create_dir_all().map_err(|x| format!("pre {}: {}", e.path, x))?;
-                let mut f = p.create_file().map_err(|x| format!("pre {}: {}", e.path, x))?;
+                p.parent().create_dir_all().map_err(|x| format!("LIBRARY-BUILD-ERROR pre {}: {}", e.path, x))?;
+                let mut f = p.create_file().map_err(|x| format!("LIBRARY-BUILD-ERROR pre {}: {}", e.path, x))?;
                 f.write_all(&pl.bytes()).map_err(|x| x.to_string())?;
             }
         }
@@ -409,7 +448,7 @@ impl Builder {
             Spec::Alt { inner, p } => {
                 let ir = self.build(inner, Some(id), None)?;
                 let sub = if p.is_empty() { ir.clone() } else { ir.join(&p[1..]).map_err(|e| e.to_string())? };
-                self.ctl.quiet(|| sub.create_dir_all()).map_err(|e| format!("altroot dir: {}", e))?;
+                self.ctl.quiet(|| sub.create_dir_all()).map_err(|e| format!("LIBRARY-BUILD-ERROR altroot dir: {}", e))?;
                 let r = VfsPath::new(SimFS::new(AltrootFS::new(sub), id, self.ctl.clone()));
                 ("alt", r, None, Some(p.clone()))
             }
@@ -426,7 +465,7 @@ impl Builder {
                 let mut ls = vec![];
                 for d in dirs {
                     let sub = br.join(&d[1..]).map_err(|e| e.to_string())?;
-                    self.ctl.quiet(|| sub.create_dir_all()).map_err(|e| format!("layer dir: {}", e))?;
+                    self.ctl.quiet(|| sub.create_dir_all()).map_err(|e| format!("LIBRARY-BUILD-ERROR layer dir: {}", e))?;
                     ls.push(sub);
                 }
                 sub_dirs = dirs.clone();
